@@ -134,6 +134,8 @@ JDerived(d) ==
      ELSE IF d.hasLoca /\ d.head.indexToLocFormat = 0 /\ (d.loca.locaLen # 2 * d.loca.n \/ ~d.loca.allEven \/ d.loca.max > 131070) THEN "loca:short-format"
      ELSE IF d.hasLoca /\ d.head.indexToLocFormat = 1 /\ d.loca.locaLen # 4 * d.loca.n THEN "loca:long-format"
      ELSE IF d.hasLoca /\ d.head.indexToLocFormat \notin {0, 1} THEN "loca:format-field"
+     \* WOFF2: the decoder rebuilds loca in the transformed glyf stream's indexFormat; head must announce that format
+     ELSE IF d.w2IndexFormat # -1 /\ d.w2IndexFormat # d.head.indexToLocFormat THEN "woff2:glyf-indexFormat-disagrees-with-head"
      ELSE IF d.hasHhea /\ JMetrics(d.hhea, gl, TRUE) # "ok" THEN "h" \o JMetrics(d.hhea, gl, TRUE)
      ELSE IF d.hasVhea /\ JMetrics(d.vhea, gl, FALSE) # "ok" THEN "v" \o JMetrics(d.vhea, gl, FALSE)
      ELSE "ok"
@@ -149,7 +151,9 @@ JNeutral(t) ==
 Judge(t) ==
   IF t.what = "container" THEN
      LET c == JContainer(t) IN
-     IF c # "ok" THEN c ELSE IF t.hasDerived THEN JDerived(t.derived) ELSE "ok"
+     IF c # "ok" THEN c
+     ELSE IF t.derivedError # "" THEN "derived:independent-reader-cannot-parse-a-written-table"
+     ELSE IF t.hasDerived THEN JDerived(t.derived) ELSE "ok"
   ELSE IF t.what = "neutral" THEN JNeutral(t)
   ELSE "unknown-record"
 
